@@ -26,23 +26,27 @@ def parseSide (s : List Char) : Option Side :=
   if s = s2l "base" then some .base else if s = s2l "backup" then some .backup else none
 
 /-- write `data` through a freshly opened handle and close it -/
-def writeClose (cfg : Cfg) (h : WHandle) (data : List Char) : M (List Char) := do
-  if data ≠ [] then hWrite cfg h 0 (String.ofList data) else pure ()
-  hClose h
-  pure h.h.name
+def writeClose (cfg : Cfg) (h : WHandle) (data : List Char) : M (List (List Char)) := do
+  let r ← attempt (whenM (data ≠ []) (hWrite cfg h 0 (String.ofList data)))
+  match r with
+  | .error e =>
+    let _ ← attempt (hClose h)
+    pure [s2l "err-write", s2l (errName e)]
+  | .ok () =>
+    match ← attempt (hClose h) with
+    | .error e => pure [s2l "err-close", s2l (errName e)]
+    | .ok () => pure [s2l "ok", h.h.name]
 
 def runOp (cfg : Cfg) (kind : String) (args : List (List Char)) : Option (M (List (List Char))) :=
   match kind, args with
   | "creat", [p, data] => some (do
       let h ← BackupFS.create cfg p
-      let n ← writeClose cfg h data
-      pure [s2l "ok", n])
+      writeClose cfg h data)
   | "write", [p, flag, perm, data] => do
       let flag ← natOf flag; let perm ← natOf perm
       pure (do
         let h ← BackupFS.openFile cfg p flag perm
-        let n ← writeClose cfg h data
-        pure [s2l "ok", n])
+        writeClose cfg h data)
   | "read", [p] => some (do
       let h ← BackupFS.openFile cfg p O_RDONLY 0
       let fi ← hStat cfg h
